@@ -37,9 +37,10 @@ structure LawfulCodec (c : Codec) : Prop where
   frameDecode_iff : ∀ d fr, c.frameDecode d = .ok fr ↔
     ∃ h, c.hdrDecode d = .ok h ∧ c.hdrLen + c.footLen ≤ h.flen ∧ h.flen ≤ d.length ∧
       c.footValidate (d.take h.flen) = true ∧ fr = ⟨h.fid, slice d c.hdrLen (h.flen - c.footLen)⟩
-  /-- decode ∘ create = id, and the created frame declares its own total length -/
-  frameCreate_decode : ∀ fid p f, c.frameCreate fid (some p) = .ok f →
-    (fid ≤ 8 → c.frameDecode f = .ok ⟨fid, p⟩) ∧ ∃ h, c.hdrDecode f = .ok h ∧ h.flen = f.length
+  /-- decode ∘ create = id, and the created frame declares its own total length (for the frame ids
+      the decoder knows: `frame_create` also packs ids 9..255, whose header `hdr_decode` rejects) -/
+  frameCreate_decode : ∀ fid p f, c.frameCreate fid (some p) = .ok f → fid ≤ 8 →
+    c.frameDecode f = .ok ⟨fid, p⟩ ∧ ∃ h, c.hdrDecode f = .ok h ∧ h.flen = f.length
 
 namespace Serial
 /-- the built-in NxScope serial codec -/
